@@ -217,7 +217,7 @@ def generate_jaqal_float(val):
     in exponent notation (1e-06)."""
     if val != val or val in (float("inf"), float("-inf")):
         raise JaqalError(f"Cannot write non-finite number {val} in Jaqal")
-    text = repr(val)
+    text = repr(float(val))
     if "e" in text:
         mantissa, exponent = text.split("e")
         if "." not in mantissa:
